@@ -10,6 +10,7 @@
    returns an error rather than panicking" is memory safety of goccy/go-json and encoding/json. *)
 From Verif Require Import Base.Util Model.Types Model.Validate Model.Wire
   Proofs.ValidateProofs Proofs.WireProofs Gen.Generated.
+From Verif Require Import Base.GenIR Gen.GeneratedTr Proofs.GenTrValidate.
 Open Scope N_scope.
 
 Section Rules.
@@ -328,6 +329,120 @@ Definition ex_wobs : wobs :=
   mkWObs (Some [ex_wres; ex_wres]) (Some [mkWProp [12] (mkWTrig 1 [0; 0] None) [97; 8; 12; 60]]) None.
 Definition ex_wout : wout :=
   mkWOut (Some []) (Some [None; Some []; Some [mkWProp [] (mkWTrig 0 [] None) []]]).
+
+Section GenTie.
+Local Open Scope Z_scope.
+(* ---- Tie to the source by translation (Gen/GeneratedTr.v, regenerated from /repo on every run by gen/translate.go) ----
+   g_* are the decision terms translated from the CURRENT Go code: every condition, the branch structure and which
+   white-listed effect statement runs on which path.  The theorems below state that the model's functions - about
+   which every theorem above speaks - are the interpretation of these terms. *)
+(* validateTriggerExtensionType: the model's check_ext is the interpretation of the generated term *)
+Theorem C15_gen_trigger_extension_decisions :
+  forall t ut,
+    check_ext t ut =
+    verr_of ok (snd (g_val_ext (Z.of_N ut) (Z.of_N ut_cond) (Z.of_N ut_log) (negb (isNone (t_ext t))) (isNone (t_ext t)))).
+Proof. exact gen_val_ext. Qed.
+Print Assumptions C15_gen_trigger_extension_decisions.
+
+(* validateCheckResult: the model's check_result is the interpretation of the generated term, rule by rule and in the source's order (which error is reported) *)
+Theorem C15_gen_check_result_decisions :
+  forall (utg : N -> N) (wg : N -> trigger -> N),
+  forall r,
+    let ext := check_ext (r_trig r) (utg (r_upk r)) in
+    check_result utg wg r =
+    verr_of ext (snd (g_val_result (Z.of_N (r_state r)) (r_retryable r) (r_eligible r) (Z.of_N (r_reason r))
+                                   (negb (is_ok ext)) (Z.of_N (wg (r_upk r) (r_trig r))) (Z.of_N (r_wid r)) (Z.of_N (r_gas r))
+                                   (isNone (r_fgw r)) (cmpz (oz (r_fgw r)) 0) (cmpz (oz (r_fgw r)) uint256_max)
+                                   (isNone (r_ln r)) (cmpz (oz (r_ln r)) 0) (cmpz (oz (r_ln r)) uint256_max))).
+Proof. exact gen_val_result. Qed.
+Print Assumptions C15_gen_check_result_decisions.
+
+(* validateUpkeepProposal: the model's check_proposal is the interpretation *)
+Theorem C15_gen_proposal_decisions :
+  forall (utg : N -> N) (wg : N -> trigger -> N),
+  forall p,
+    let ext := check_ext (p_trig p) (utg (p_upk p)) in
+    check_proposal utg wg p =
+    verr_of ext (snd (g_val_proposal (negb (is_ok ext)) (Z.of_N (wg (p_upk p) (p_trig p))) (Z.of_N (p_wid p)))).
+Proof. exact gen_val_proposal. Qed.
+Print Assumptions C15_gen_proposal_decisions.
+
+(* validateAutomationObservation, block-history loop: the model's check_hist, one step *)
+Theorem C15_gen_observation_history_loop :
+  forall seen b t,
+    check_hist seen (b :: t) =
+    match g_val_obs_hist_body (memN (bk_num b) seen) with
+    | ([1], Fall) => check_hist (bk_num b :: seen) t
+    | (_, l) => verr_of ok l
+    end.
+Proof. exact gen_val_obs_hist_body. Qed.
+Print Assumptions C15_gen_observation_history_loop.
+
+(* validateAutomationObservation, performables loop: the model's check_results, one step *)
+Theorem C15_gen_observation_performables_loop :
+  forall (utg : N -> N) (wg : N -> trigger -> N),
+  forall seen r t,
+    let inner := check_result utg wg r in
+    check_results utg wg seen (r :: t) =
+    match g_val_obs_perf_body (negb (is_ok inner)) (memN (r_wid r) seen) with
+    | ([1], Fall) => check_results utg wg (r_wid r :: seen) t
+    | (_, l) => verr_of inner l
+    end.
+Proof. exact gen_val_obs_perf_body. Qed.
+Print Assumptions C15_gen_observation_performables_loop.
+
+(* validateAutomationObservation, proposals loop: the model's check_proposals, one step, and the per-type counters *)
+Theorem C15_gen_observation_proposals_loop :
+  forall (utg : N -> N) (wg : N -> trigger -> N),
+  forall seen p t,
+    let inner := check_proposal utg wg p in
+    let d := g_val_obs_prop_body (negb (is_ok inner)) (memN (p_wid p) seen) (Z.of_N (utg (p_upk p))) (Z.of_N ut_cond) (Z.of_N ut_log) in
+    check_proposals utg wg seen (p :: t) =
+    match d with
+    | (1 :: _, Fall) => check_proposals utg wg (p_wid p :: seen) t
+    | (_, l) => verr_of inner l
+    end
+    (* and the two counters: a proposal is counted as conditional / log exactly by its upkeep type *)
+    /\ (snd d = Fall -> existsb (Z.eqb 2) (fst d) = (utg (p_upk p) =? ut_cond)%N
+                        /\ existsb (Z.eqb 3) (fst d) = ((utg (p_upk p) =? ut_log)%N && negb (utg (p_upk p) =? ut_cond)%N)).
+Proof. exact gen_val_obs_prop_body. Qed.
+Print Assumptions C15_gen_observation_proposals_loop.
+
+(* validateAutomationObservation, whole function: the length rules with the limits read from the source, in source order *)
+Theorem C15_gen_observation_length_rules :
+  forall n_hist n_perf n_props n_cond n_log,
+    g_val_obs n_hist ObservationBlockHistoryLimit n_perf ObservationPerformablesLimit n_props
+              ObservationConditionalsProposalsLimit ObservationLogRecoveryProposalsLimit n_cond n_log =
+    if ObservationBlockHistoryLimit <? n_hist then ([], RetO 1)
+    else if ObservationPerformablesLimit <? n_perf then ([1], RetO 3)
+    else if ObservationConditionalsProposalsLimit + ObservationLogRecoveryProposalsLimit <? n_props then ([1; 2], RetO 15)
+    else if ObservationConditionalsProposalsLimit <? n_cond then ([1; 2; 3], RetO 17)
+    else if ObservationLogRecoveryProposalsLimit <? n_log then ([1; 2; 3], RetO 18)
+    else ([1; 2; 3], RetO 0).
+Proof. exact gen_val_obs. Qed.
+Print Assumptions C15_gen_observation_length_rules.
+
+(* validateAutomationOutcome, whole function *)
+Theorem C15_gen_outcome_length_rules :
+  forall n_agreed n_rounds,
+    g_val_outcome n_agreed OutcomeAgreedPerformablesLimit n_rounds OutcomeSurfacedProposalsRoundHistoryLimit =
+    if OutcomeAgreedPerformablesLimit <? n_agreed then ([], RetO 3)
+    else if OutcomeSurfacedProposalsRoundHistoryLimit <? n_rounds then ([1], RetO 19)
+    else ([1; 2], RetO 0).
+Proof. exact gen_val_outcome. Qed.
+Print Assumptions C15_gen_outcome_length_rules.
+
+(* validateAutomationOutcome, loop bodies *)
+Theorem C15_gen_outcome_loops :
+  forall (bad seen : bool) n_round,
+    g_val_outcome_perf_body bad seen = (if bad then ([], RetO 100) else if seen then ([], RetO 14) else ([1], Fall)) /\
+    g_val_outcome_prop_body bad seen = (if bad then ([], RetO 100) else if seen then ([], RetO 16) else ([1], Fall)) /\
+    g_val_outcome_round_body n_round OutcomeSurfacedProposalsLimit =
+      (if OutcomeSurfacedProposalsLimit <? n_round then ([], RetO 20) else ([1], Fall)).
+Proof. exact gen_val_outcome_bodies. Qed.
+Print Assumptions C15_gen_outcome_loops.
+
+End GenTie.
 
 Example C15_nonvacuous_roundtrip :
   wf_obs ex_wobs /\ wf_outcome ex_wout /\
